@@ -83,6 +83,33 @@ fn create_fee_integration(fk: usize, fd: u64, md: u64, fee: u128, pay: u128) -> 
     (addr_id(&f), out)
 }
 
+/// Integration: a real list whitelist (plain / flex / tiered / tiered-flex) is created with member limit `ml` paying exactly the fee
+/// the published schedule demands (100 STARS per started thousand), then `IncreaseMemberLimit(nml)` paying exactly the fee for the
+/// newly started thousands. Reports what each fee did: burned / fair-burn pool, and what the whitelist still holds afterwards.
+fn wl_fee_integration(k: usize, ml: u32, nml: u32) -> (u64, String) {
+    use lp_harness::minters::{WlArgs, WlKind, WlStage};
+    let kind = [WlKind::Plain, WlKind::Flex, WlKind::Tiered, WlKind::TieredFlex][k % 4];
+    let mut w = MWorld::new(GENESIS + 1000);
+    let st = WlStage { start: GENESIS + 5_000, end: GENESIS + 9_000, mint_price: (0, 60_000_000), per_address_limit: 2, mint_count_limit: None, members: vec![(21, 1), (22, 1)], merkle_root: String::new() };
+    let a = WlArgs { admin: 11, member_limit: ml, admins_mutable: true, whale_cap: None, stages: vec![st] };
+    let sup0 = w.supply(0);
+    let pool0 = w.balance(&addr(ID_FAIRBURN_POOL), 0);
+    let Ok(wl) = w.new_whitelist(kind, &a) else { return (0, "err".into()) };
+    let fee1 = MWorld::wl_fee(kind, ml);
+    // `new_whitelist` mints the fee to the admin first, so the supply before the instantiate was sup0 + fee1
+    let (b1, p1) = ((sup0 + fee1).saturating_sub(w.supply(0)), w.balance(&addr(ID_FAIRBURN_POOL), 0).saturating_sub(pool0));
+    // the upgrade: pay exactly (started thousands of nml − started thousands of ml) × the crate's price per 1000
+    let fee2 = MWorld::wl_fee(kind, nml).saturating_sub(MWorld::wl_fee(kind, ml));
+    w.fund(&addr(11), 0, fee2);
+    let (sup1, pool1) = (w.supply(0), w.balance(&addr(ID_FAIRBURN_POOL), 0));
+    let funds: Vec<(u64, u128)> = if fee2 > 0 { vec![(0, fee2)] } else { vec![] };
+    if w.exec(&addr(11), &wl, &json!({"increase_member_limit": nml}), &funds).is_err() {
+        return (addr_id(&wl), "err".into());
+    }
+    let (b2, p2) = (sup1.saturating_sub(w.supply(0)), w.balance(&addr(ID_FAIRBURN_POOL), 0).saturating_sub(pool1));
+    (addr_id(&wl), format!("ok fee1={fee1} burned1={b1} pool1={p1} fee2={fee2} burned2={b2} pool2={p2} held={}", w.balance(&wl, 0)))
+}
+
 /// Integration: Shuffle on a vending-family minter whose factory charges `fee`, paying `pay`.
 fn shuffle_fee_integration(k: usize, fee: u128, pay: u128) -> (u64, String) {
     let kind = MinterKind::from_idx(k);
@@ -129,6 +156,11 @@ impl Sut for S {
             let (f, out) = create_fee_integration(kv_u64(line, "fk").unwrap() as usize, kv_u64(line, "fd").unwrap(), kv_u64(line, "md").unwrap(), kv_u128(line, "fee").unwrap(), kv_u128(line, "pay").unwrap());
             self.last = Some((line.to_string(), out.clone()));
             return (format!("{line} factory={f}"), out);
+        }
+        if op == "wlfee" {
+            let (wl, out) = wl_fee_integration(kv_u64(line, "kind").unwrap() as usize, kv_u64(line, "ml").unwrap() as u32, kv_u64(line, "nml").unwrap() as u32);
+            self.last = Some((line.to_string(), out.clone()));
+            return (format!("{line} wl={wl}"), out);
         }
         if op == "shufflefee" {
             let (m, out) = shuffle_fee_integration(kv_u64(line, "kind").unwrap() as usize, kv_u128(line, "fee").unwrap(), kv_u128(line, "pay").unwrap());
@@ -239,6 +271,20 @@ impl Sut for S {
                 }
                 if pay < f {
                     return Some((format!("{name}/create_minter/insufficient-fee-accepted"), format!("creation accepted with payment below the fee on `{line}`")));
+                }
+                None
+            }
+            "wlfee" if out.starts_with("ok") => {
+                let k = kv_u64(&line, "kind").unwrap() as usize;
+                let name = ["whitelist", "whitelist-flex", "tiered-whitelist", "tiered-whitelist-flex"][k % 4];
+                let (ml, nml) = (kv_u128(&line, "ml").unwrap(), kv_u128(&line, "nml").unwrap());
+                let star100: u128 = 100_000_000; // "100 STARS per started thousand" (the published schedule)
+                let f1 = (ml + 999) / 1000 * star100;
+                let f2 = ((nml + 999) / 1000 - (ml + 999) / 1000) * star100;
+                let got = (getn(&out, "fee1"), getn(&out, "burned1"), getn(&out, "pool1"), getn(&out, "fee2"), getn(&out, "burned2"), getn(&out, "pool2"), getn(&out, "held"));
+                let want = (f1, f1 / 2, f1 - f1 / 2, f2, f2 / 2, f2 - f2 / 2, 0);
+                if got != want {
+                    return Some((format!("{name}/fee/fair-burn-schedule"), format!("member limit {ml} -> {nml}: expected fee1/burned1/pool1/fee2/burned2/pool2/held = {:?}, got {:?} on `{line}`", want, got)));
                 }
                 None
             }
@@ -441,6 +487,18 @@ fn main() {
                 }
                 ses.require(format!("createfee:{name}:fd{fd}:md{md}:exact:ok"));
             }
+        }
+    }
+    // whitelist fees: creation and upgrade across 0, 1, 2 and 4 thousand-boundaries on the four list whitelists
+    for k in 0..4u64 {
+        let name = ["whitelist", "whitelist-flex", "tiered-whitelist", "tiered-whitelist-flex"][k as usize];
+        for (ml, nml) in [(10u32, 900u32), (1000, 1001), (1000, 3000), (999, 5000), (1500, 1800), (2001, 4000)] {
+            let out = ses.step(&mut sut, &format!("wlfee kind={k} ml={ml} nml={nml}"));
+            let crossed = (nml + 999) / 1000 - (ml + 999) / 1000;
+            ses.mark(format!("wlfee:{name}:crossed{}:{}", crossed.min(2), &out[..2]));
+        }
+        for c in 0..3 {
+            ses.require(format!("wlfee:{name}:crossed{c}:ok"));
         }
     }
     for k in 0..6u64 {
